@@ -7,16 +7,17 @@ import Mdns.Lemmas.Responder
   goodbye packets (interface, family, every record with TTL), the repeat 120 ms later and the
   silence afterwards agree on all generated histories.
 
-  Proved: the reply (`unregister_reply`), the goodbye contract as the code implements it
-  (`goodbye_contract`: one packet per interface and family with an in-subnet address, PTR
+  Proved: the reply (`unregister_reply`), the goodbye contract (`goodbye_contract`: one packet
+  per interface on which the service is `Announced` and family with an in-subnet address, PTR
   (+ subtype PTR), SRV, TXT, addresses, all TTL 0, repeated once at +120 ms with the same
-  content; `shutdown_goodbyes`), and quiet afterwards (`quiet_after`).
+  content; `shutdown_goodbyes`), "only where announced" (`goodbye_only_where_announced`, the
+  statement `goodbye_contract_full` - it was FALSE before the repair of D30: the goodbye went
+  out wherever the service had an in-subnet address, also while it was still probing; the
+  witness corpus/C09/d30_goodbye_while_probing.ops is a regression `example` below), the
+  unregistered service leaves the probes it waited for and a probe nobody else waits for is
+  dropped (`unregister_leaves_probes`), and quiet afterwards (`quiet_after`).
 
-  NOT as the statement reads it: the goodbye goes out wherever the service has an in-subnet
-  address, ALSO where it is still probing (never announced there), and it always carries the
-  names as registered.  `goodbye_contract_full` is the statement ("only where announced");
-  `goodbye_while_probing` proves that the model - and the code, witness
-  corpus/C09/goodbye_while_probing.ops - violates it.
+  NOT as the statement reads it: the goodbye always carries the names as registered (D21).
 -/
 namespace Mdns.Props.C09
 open Mdns Mdns.Responder
@@ -44,16 +45,21 @@ theorem unregister_unknown_noop (s : State) (now : Nat) (name : BList) (ch : Nat
   simp [execUnregister, h]
 
 /-- On OK: the packets sent are exactly the goodbye packets of the service, one per
-    (interface, family) - followed by the reply; each is queued once more for `now + 120` ms
-    with the same content, and a timer is armed for it. -/
+    (interface on which it is `Announced`, family) - followed by the reply; each is queued once
+    more for `now + 120` ms with the same content, and a timer is armed for it. -/
 theorem goodbye_contract (s : State) (now : Nat) (name : BList) (ch : Nat) (svc : Service)
     (h : alookup (lower name) s.services = some svc) :
     (execUnregister s now name ch).2 =
-      (goodbyes s.intfs svc).map (fun g => Out.send g.1 g.2.1 none g.2.2) ++ [.unregReply ch true] ∧
+      (goodbyes (announcedIntfs s svc) svc).map (fun g => Out.send g.1 g.2.1 none g.2.2) ++ [.unregReply ch true] ∧
     (execUnregister s now name ch).1.reruns =
-      s.reruns ++ (goodbyes s.intfs svc).map (fun g => ReRun.unregisterResend (now + 120) g.2.2 g.1 g.2.1) ∧
-    (execUnregister s now name ch).1.timers = s.timers ++ (goodbyes s.intfs svc).map (fun _ => now + 120) := by
+      s.reruns ++ (goodbyes (announcedIntfs s svc) svc).map (fun g => ReRun.unregisterResend (now + 120) g.2.2 g.1 g.2.1) ∧
+    (execUnregister s now name ch).1.timers = s.timers ++ (goodbyes (announcedIntfs s svc) svc).map (fun _ => now + 120) := by
   simp [execUnregister, h]
+
+/-- the interfaces a goodbye is due on: those of the daemon on which the service is `Announced` -/
+theorem mem_announcedIntfs (s : State) (svc : Service) (i : MyIntf) :
+    i ∈ announcedIntfs s svc ↔ i ∈ s.intfs ∧ svc.announcedOn i.index = true := by
+  simp [announcedIntfs, List.mem_filter]
 
 /-- Which goodbye packets there are: one for an interface index and a family exactly when an
     interface with that index has an in-subnet address of the service in that family. -/
@@ -86,10 +92,10 @@ theorem goodbye_resend (s : State) (now j t : Nat) (p : Packet) (i : MyIntf) (v4
     execRerun now j (s, outs) (.unregisterResend t p i.index v4) = (s, outs ++ [.send i.index v4 none p]) := by
   simp [execRerun, execUnregisterResend, hi, hf]
 
-/-- Shutdown: a goodbye for every registered service, on every interface and family as for
-    unregister; afterwards nothing is registered and nothing is queued. -/
+/-- Shutdown: a goodbye for every registered service, on every interface (where it is
+    `Announced`) and family as for unregister; afterwards nothing is registered and nothing is queued. -/
 theorem shutdown_goodbyes (s : State) :
-    (cleanup s).2 = s.services.flatMap (fun e => (goodbyes s.intfs e.2).map (fun g => Out.send g.1 g.2.1 none g.2.2)) ∧
+    (cleanup s).2 = s.services.flatMap (fun e => (goodbyes (announcedIntfs s e.2) e.2).map (fun g => Out.send g.1 g.2.1 none g.2.2)) ∧
     (cleanup s).1.services = [] ∧ (cleanup s).1.reruns = [] ∧ (cleanup s).1.stopped = true := by
   simp [cleanup]
 
@@ -144,6 +150,84 @@ def goodbye_contract_full : Prop :=
   ∀ (s : State) (now : Nat) (name : BList) (ch : Nat) (svc : Service), alookup (lower name) s.services = some svc →
     ∀ idx v4 p, Out.send idx v4 none p ∈ (execUnregister s now name ch).2 → svc.announcedOn idx = true
 
+/-- THE CONTRACT, soundness (holds since the repair of D30): every packet `unregister` sends is
+    the goodbye packet of the service for an interface of the daemon on which the service is
+    `Announced` and a family in which it has an in-subnet address there; it is queued once more
+    for `now + 120` ms and a timer is armed. -/
+theorem goodbye_contract_sound (s : State) (now : Nat) (name : BList) (ch : Nat) (svc : Service)
+    (h : alookup (lower name) s.services = some svc) :
+    ∀ idx v4 p, Out.send idx v4 none p ∈ (execUnregister s now name ch).2 →
+      (∃ i ∈ s.intfs, i.index = idx ∧ svc.announcedOn idx = true ∧ goodbyePkt svc i v4 = some p) ∧
+      ReRun.unregisterResend (now + 120) p idx v4 ∈ (execUnregister s now name ch).1.reruns ∧
+      (now + 120) ∈ (execUnregister s now name ch).1.timers := by
+  intro idx v4 p hm
+  obtain ⟨h1, h2, h3⟩ := goodbye_contract s now name ch svc h
+  rw [h1] at hm
+  simp only [List.mem_append, List.mem_map, List.mem_cons, List.not_mem_nil, or_false] at hm
+  rcases hm with ⟨g, hg, heq⟩ | hm
+  · obtain ⟨gi, gv, gp⟩ := g
+    simp only [Out.send.injEq, true_and] at heq
+    obtain ⟨e1, e2, e3⟩ := heq
+    subst e1 e2 e3
+    refine ⟨?_, ?_, ?_⟩
+    · obtain ⟨i, hi, hidx, hp⟩ := mem_goodbyes.mp hg
+      obtain ⟨hin, hann⟩ := (mem_announcedIntfs s svc i).mp hi
+      exact ⟨i, hin, hidx, hidx ▸ hann, hp⟩
+    · rw [h2]
+      simp only [List.mem_append, List.mem_map]
+      exact Or.inr ⟨_, hg, rfl⟩
+    · rw [h3]
+      simp only [List.mem_append, List.mem_map]
+      exact Or.inr ⟨_, hg, trivial⟩
+  · cases hm
+
+/-- ONLY WHERE ANNOUNCED: the statement holds of the repaired code. -/
+theorem goodbye_only_where_announced : goodbye_contract_full := by
+  intro s now name ch svc h idx v4 p hm
+  obtain ⟨⟨_, _, _, hann, _⟩, _⟩ := goodbye_contract_sound s now name ch svc h idx v4 p hm
+  exact hann
+
+/-- THE CONTRACT, completeness: on every interface of the daemon on which the service is
+    `Announced`, for every family in which it has an in-subnet address there, the goodbye packet
+    is sent. -/
+theorem goodbye_where_announced (s : State) (now : Nat) (name : BList) (ch : Nat) (svc : Service)
+    (h : alookup (lower name) s.services = some svc) (i : MyIntf) (hi : i ∈ s.intfs) (hann : svc.announcedOn i.index = true)
+    (v4 : Bool) (p : Packet) (hp : goodbyePkt svc i v4 = some p) :
+    Out.send i.index v4 none p ∈ (execUnregister s now name ch).2 := by
+  rw [(goodbye_contract s now name ch svc h).1]
+  simp only [List.mem_append, List.mem_map]
+  exact Or.inl ⟨(i.index, v4, p), mem_goodbyes.mpr ⟨i, (mem_announcedIntfs s svc i).mpr ⟨hi, hann⟩, rfl, hp⟩, rfl⟩
+
+/-- the same for shutdown: every goodbye packet of `cleanup` is for a registered service on an
+    interface on which that service is `Announced` -/
+theorem shutdown_only_where_announced (s : State) (idx : Nat) (v4 : Bool) (p : Packet)
+    (hm : Out.send idx v4 none p ∈ (cleanup s).2) :
+    ∃ e ∈ s.services, e.2.announcedOn idx = true ∧ ∃ i ∈ s.intfs, i.index = idx ∧ goodbyePkt e.2 i v4 = some p := by
+  rw [(shutdown_goodbyes s).1] at hm
+  simp only [List.mem_flatMap, List.mem_map] at hm
+  obtain ⟨e, he, g, hg, heq⟩ := hm
+  obtain ⟨gi, gv, gp⟩ := g
+  simp only [Out.send.injEq, true_and] at heq
+  obtain ⟨e1, e2, e3⟩ := heq
+  subst e1 e2 e3
+  obtain ⟨i, hi, hidx, hp⟩ := mem_goodbyes.mp hg
+  obtain ⟨hin, hann⟩ := (mem_announcedIntfs s e.2 i).mp hi
+  exact ⟨e, he, hidx ▸ hann, i, hin, hidx, hp⟩
+
+/-- UNREGISTER LEAVES THE PROBES (repair of D30): after an OK `unregister`, on every interface
+    of the daemon, every probe that is left is a probe from before - same records, same times -
+    in which the service does not wait any more; a probe in which only this service waited is
+    gone (so no probe query is sent for it any more: `Props.C07.probe_query_only_probes`). -/
+theorem unregister_leaves_probes (s : State) (now : Nat) (name : BList) (ch : Nat) (svc : Service)
+    (h : alookup (lower name) s.services = some svc) (i : MyIntf) (hi : i ∈ s.intfs) :
+    ∀ k p, (k, p) ∈ ((execUnregister s now name ch).1.registry i.index).probing →
+      svc.fullname ∉ p.waiting ∧ ∃ q, (k, q) ∈ (s.registry i.index).probing ∧ p.records = q.records ∧ p.start = q.start ∧
+        p.next = q.next ∧ p.waiting = q.waiting.filter (· != svc.fullname) ∧ (svc.fullname ∈ q.waiting → p.waiting ≠ []) := by
+  have e : (execUnregister s now name ch).1.registry i.index = (purgeWaiting s svc.fullname).registry i.index := by
+    simp [execUnregister, h, State.registry]
+  rw [e]
+  exact purgeWaiting_probes s svc.fullname i hi
+
 /-- the state 100 ms after `register(web)` on a fresh daemon: still probing -/
 def probingState : State := (iter (init 1000000 [eth0]) { now := 1000000, jitter := 7, cmds := [.register web] }).1
 
@@ -156,39 +240,18 @@ def goodbyeOfWeb : Packet :=
                 { name := web.fullname, ty := TYPE_TXT, flush := true, ttl := 0, rdata := .txt [0] },
                 { name := web.host, ty := TYPE_A, flush := true, ttl := 0, rdata := .a [192, 168, 1, 20] }] }
 
-/-- FINDING: the statement is violated - unregistering a service that is still probing (its
-    name was never announced, it could even lose the probe) multicasts a goodbye for it. -/
-theorem goodbye_while_probing : ¬ goodbye_contract_full := by
-  intro h
-  have h1 := h probingState 1000100 web.fullname 1 probingSvc (by decide +kernel) 2 true goodbyeOfWeb (by decide +kernel)
-  exact absurd h1 (by decide +kernel)
-
-/-- PROVED PART of the contract: everything except "only where announced" and "under the names
-    most recently announced" (the goodbye always uses the names as registered; with a rename by
-    conflict resolution that is the wrong name - D21). -/
-theorem goodbye_contract_partial (s : State) (now : Nat) (name : BList) (ch : Nat) (svc : Service)
-    (h : alookup (lower name) s.services = some svc) :
-    ∀ idx v4 p, Out.send idx v4 none p ∈ (execUnregister s now name ch).2 →
-      (∃ i ∈ s.intfs, i.index = idx ∧ goodbyePkt svc i v4 = some p) ∧
-      ReRun.unregisterResend (now + 120) p idx v4 ∈ (execUnregister s now name ch).1.reruns ∧
-      (now + 120) ∈ (execUnregister s now name ch).1.timers := by
-  intro idx v4 p hm
-  obtain ⟨h1, h2, h3⟩ := goodbye_contract s now name ch svc h
-  rw [h1] at hm
-  simp only [List.mem_append, List.mem_map, List.mem_cons, List.not_mem_nil, or_false] at hm
-  rcases hm with ⟨g, hg, heq⟩ | hm
-  · obtain ⟨gi, gv, gp⟩ := g
-    simp only [Out.send.injEq, true_and] at heq
-    obtain ⟨e1, e2, e3⟩ := heq
-    subst e1 e2 e3
-    refine ⟨mem_goodbyes.mp hg, ?_, ?_⟩
-    · rw [h2]
-      simp only [List.mem_append, List.mem_map]
-      exact Or.inr ⟨_, hg, rfl⟩
-    · rw [h3]
-      simp only [List.mem_append, List.mem_map]
-      exact Or.inr ⟨_, hg, trivial⟩
-  · cases hm
+/-- REGRESSION (D30, was the theorem `goodbye_while_probing : ¬ goodbye_contract_full`; witness
+    corpus/C09/d30_goodbye_while_probing.ops): unregistering a service that is still probing - its
+    name was never announced, it could still lose the probe - answers OK, sends NO goodbye, queues
+    no repeat, leaves no probe behind, and the iterations at the times the probe queries would
+    have left (+250, +500, +750 ms) send nothing. -/
+example :
+    (execUnregister probingState 1000100 web.fullname 1).2 = [.unregReply 1 true] ∧
+    (execUnregister probingState 1000100 web.fullname 1).1.reruns = [] ∧
+    ((execUnregister probingState 1000100 web.fullname 1).1.registry 2).probing = [] ∧
+    (run (execUnregister probingState 1000100 web.fullname 1).1
+      [{ now := 1000257, jitter := 7 }, { now := 1000507, jitter := 7 }, { now := 1000757, jitter := 7 }]).2 = [[], [], []] := by
+  decide +kernel
 
 /-! ### non-vacuity -/
 
